@@ -34,3 +34,4 @@ def check(ctx):
     drivers.observable_dispatch(ctx)
     drivers.normalised_copies(ctx)
     drivers.evaluation_time_filter(ctx)
+    observables.sv_density_matrix_energy(ctx)
